@@ -185,8 +185,10 @@ def main(argv=None):
     bd = None
     if prop.get('bounded') and not a.no_bounded:
         try:
-            mod = importlib.import_module(prop['bounded'])
-            bd = mod.run(tier, seed)
+            importlib.import_module(prop['bounded'])
+            bd = run_bounded(prop['bounded'], tier, seed)
+        except BoundedTimeout as e:
+            fault.append('bounded stand-in exceeded its time budget (%s); nothing it explored is reported' % e)
         except ModuleNotFoundError as e:
             if prop['bounded'] in str(e):
                 bd = None
@@ -261,6 +263,52 @@ def main(argv=None):
     if fault:
         return 3
     return 0
+
+
+class BoundedTimeout(Exception):
+    pass
+
+
+def _bounded_child(modname, tier, seed, conn):
+    try:
+        mod = importlib.import_module(modname)
+        conn.send(('ok', mod.run(tier, seed)))
+    except BaseException:      # noqa
+        conn.send(('error', traceback.format_exc()[-4000:]))
+    finally:
+        conn.close()
+
+
+def run_bounded(modname, tier, seed):
+    """the stand-in runs in a child process under a watchdog: an edit of /repo that makes printing diverge must not
+    hang the check"""
+    import multiprocessing
+    budget = int(os.environ.get('PVF_BOUNDED_BUDGET_S', 1500 if tier == 'quick' else 7200))
+    ctx = multiprocessing.get_context('fork')
+    parent, child = ctx.Pipe(duplex=False)
+    p = ctx.Process(target=_bounded_child, args=(modname, tier, seed, child), daemon=False)
+    p.start()
+    child.close()
+    if not parent.poll(budget):
+        import signal
+        try:
+            os.killpg(os.getpgid(p.pid), 0)
+        except Exception:       # noqa
+            pass
+        # kill the child and its pool workers
+        try:
+            import subprocess
+            subprocess.run(['pkill', '-KILL', '-P', str(p.pid)], check=False)
+        except Exception:       # noqa
+            pass
+        p.kill()
+        p.join(5)
+        raise BoundedTimeout('%d s' % budget)
+    status, payload = parent.recv()
+    p.join(30)
+    if status == 'error':
+        raise RuntimeError('bounded stand-in failed in its child process:\n' + payload)
+    return payload
 
 
 def explanation(pid, pv, bd):
